@@ -23,6 +23,7 @@ type Variant struct {
 	Extra   []*d.FileDescriptorProto                                               // extra dependency files of B's request
 	Structs string                                                                 // "A" | "B": which file gives package p
 	Roots   []string                                                               // roots compared (default: A's types)
+	Alias   bool                                                                   // B names the struct package by a bare alias + import_path_overrides (README form)
 }
 
 func cloneFile(f *d.FileDescriptorProto) *d.FileDescriptorProto {
@@ -128,8 +129,11 @@ func variants() []*Variant {
 	}
 	// C13: separate-package generation
 	// (P-multi, P-names, P-flags, P-mapopt carry field-addressed options in both key forms)
-	for _, b := range []string{"P-time", "P-cast", "P-nest", "P-oneof", "P-embed", "P-scal-S3", "P-empty", "P-nest-map", "P-multi", "P-names", "P-flags", "P-embed-x"} {
+	for _, b := range []string{"P-time", "P-cast", "P-nest", "P-oneof", "P-embed", "P-scal-S3", "P-empty", "P-nest-map", "P-multi", "P-names", "P-flags", "P-embed-x", "P-gopkg"} {
 		add(&Variant{Name: "sep:" + b, Prop: "C13", Base: b, Quick: b != "P-nest-map", Mut: ident})
+	}
+	for _, b := range []string{"P-time", "P-nest", "P-embed", "P-oneof", "P-flags", "P-gopkg"} {
+		add(&Variant{Name: "sep-alias:" + b, Prop: "C13", Base: b, Quick: b != "P-oneof", Mut: ident, Alias: true})
 	}
 	// C11: field-addressed options on P-multi, both key forms
 	excl := func(keys ...string) func(f *d.FileDescriptorProto, c *Config) (*d.FileDescriptorProto, *Config) {
@@ -153,6 +157,8 @@ func variants() []*Variant {
 		c.SensitiveFields = []string{"Shared.Flag"}
 		c.Validators = map[string][]string{"A.Own": {"vp/p.UseMockValidator()"}}
 		c.PlanModifiers = map[string][]string{"Shared.Num": {"github.com/hashicorp/terraform-plugin-framework/tfsdk.RequiresReplace()"}}
+		// A.X.Num is computed by path and carries a plan modifier by Message.Field: the explicit list wins over the default
+		c.UseStateForUnknownByDefault = true
 	})})
 	// C12: selected types are independent of the rest of the request
 	add(&Variant{Name: "types:A-vs-A+B", Prop: "C12", Base: "P-multi", Quick: true, CfgA: func(c *Config) { c.Types = []string{"A"} },
@@ -264,6 +270,14 @@ func buildVariant(v *Variant, pluginBin, out string, kl, km int) (*BuildInfo, er
 	// B: separate package tb over the same structs
 	pkg := fileA.GetPackage()
 	cfgBq := qualifyForSepPackage(cfgB, modName+"/"+pkg)
+	if v.Alias {
+		// default_package_name: structs + import_path_overrides: {structs: <full import path>}
+		cfgBq = qualifyForSepPackage(cfgB, "structs")
+		if cfgBq.ImportPathOverrides == nil {
+			cfgBq.ImportPathOverrides = map[string]string{}
+		}
+		cfgBq.ImportPathOverrides["structs"] = modName + "/" + pkg
+	}
 	cfgPath := filepath.Join(out, "cfgB.yaml")
 	writeFile(cfgPath, cfgBq.yaml())
 	req := buildRequest(fileB, "config="+cfgPath, v.Extra...)
@@ -274,9 +288,30 @@ func buildVariant(v *Variant, pluginBin, out string, kl, km int) (*BuildInfo, er
 	if len(resp.File) != 1 {
 		return nil, fmt.Errorf("variant B: expected one file, got %d", len(resp.File))
 	}
-	genB := filepath.Join(out, "tb", resp.File[0].GetName())
+	genB := filepath.Join(out, "tb", filepath.Base(resp.File[0].GetName()))
 	writeFile(genB, []byte(resp.File[0].GetContent()))
 	info.Generated = genB
+	{
+		roots := v.Roots
+		if roots == nil {
+			roots = cfgA.Types
+		}
+		for _, rn := range roots {
+			for _, fn := range []string{"GenSchema" + rn, "Copy" + rn + "FromTerraform", "Copy" + rn + "ToTerraform"} {
+				if !strings.Contains(resp.File[0].GetContent(), "func "+fn+"(") {
+					info.Missing = append(info.Missing, fn)
+				}
+			}
+		}
+		if len(info.Missing) > 0 {
+			// the differential harness cannot be written against functions that do not exist: reported
+			// by the runner as a violation of the variant's property (concrete evidence: the generated file)
+			info.Pkg = "tb"
+			b, _ := json.MarshalIndent(info, "", " ")
+			ioutil.WriteFile(filepath.Join(out, "build.json"), b, 0644)
+			return info, nil
+		}
+	}
 	if base.SepHooks != "" {
 		writeFile(filepath.Join(out, "tb", "zz_hooks.go"), []byte(base.SepHooks))
 	}
